@@ -331,6 +331,10 @@ class Hooks:
         return NotImplemented
 
 
+class PathTruncated(Exception):
+    """The current path is abandoned at an unrolling bound (reported as outcome 'truncated')."""
+
+
 class KeyList(list):
     """dict.keys() result: a list for iteration, set-like for comparison."""
 
@@ -398,6 +402,7 @@ class Interp:
         self.while_bound = while_bound
         self.max_steps = max_steps
         self.max_recursion = 1
+        self.loop_unroll: Optional[int] = None
         self.wrap_errortrace = False
         # per path state
         self.prefix: List[int] = []
@@ -433,6 +438,8 @@ class Interp:
                 results.append(PathResult('raise', r.exc, list(self.conds), list(self.events), self.truncated))
             except _Return as r:  # pragma: no cover
                 results.append(PathResult('return', r.value, list(self.conds), list(self.events), self.truncated))
+            except PathTruncated:
+                results.append(PathResult('truncated', None, list(self.conds), list(self.events), True))
             if len(results) > self.max_paths:
                 raise PathLimit(f'more than {self.max_paths} paths')
             # next prefix
@@ -667,6 +674,10 @@ class Interp:
             if not concrete:
                 sym_iters += 1
             total += 1
+            if self.loop_unroll is not None and total > self.loop_unroll:
+                # a loop left only through `break` whose exit the abstraction cannot bound: cut this path after loop_unroll iterations
+                self.truncated = True
+                raise PathTruncated()
             if total > 4096:
                 raise Unsupported('while loop does not terminate in the abstraction')
             try:
